@@ -257,3 +257,29 @@ CHECKS = {
         "technique": "TLA+ definitional judge evaluated by TLC on every weak order within the bound; stimuli replayed into the real functions; trace validation by TLC",
     },
 }
+
+
+# Capabilities added after the round of independently written breaking changes (DESIGN.md 10.7); appended to the level text.
+ADDENDA = {
+    "C02": " A record of an unexpectedly panicked operation is rejected as such (the history ends there).",
+    "C04": " The quick tier also runs the full-slab placement and every drop program with all scripted objects held through type-erased (.erase()) handles.",
+    "C05": " Receiver programs also re-poll with the SAME waker object (Waker::will_wake true; scripted wakers share one data pointer between a waker "
+           "and its clones and are never freed, so a double release is an event for the judge); a crash of the code under test is recorded as a run that did not terminate.",
+    "C06": " Same-waker re-polls and crash-as-data as in C05.",
+    "C07": " Programs also re-poll with the same waker object; a waker released twice is counted by the judge (leaked, Arc-like scripted wakers); a crash of "
+           "the process is a run that did not terminate.",
+    "C10": " Histories also contain pins the (harness) kernel refuses - nothing may change and the call may not return normally - and plain threads that inherit "
+           "their creator's OS affinity and pin themselves; a 'full' embedding replays the set of all abstract processors as every processor of the instance.",
+    "C12": " PerThread.tla also explores instance factories that re-enter acquire() on the same wrapper on the same thread and keep the reference (acqr).",
+    "C14": " Spawn wake-ups are modelled with event-listener's additive / non-additive notify semantics (switch NotifyAdditional read from the source); bound G "
+           "(1 processor x 2 workers, a task body that returns only after another task ran) checks NoIdleLost: no worker sleeps un-notified next to queued work "
+           "while the others are busy (finding S16, fixed).",
+    "C15": " The trace-level RC11 layer gives every remote wake a publication of its own and obliges the poll after the consuming check_activated to see the "
+           "publication of every wake that touched the activation flag in any way (load, swap, CAS).",
+    "C18": " Two threads creating the same new operation: the harness's own global allocator parks the first inside each allocation of Session::operation() while "
+           "the second creates the operation and records a span; both spans must reach the report.",
+    "C19": " Free-running readers (get/list) race a writer storing a 24 MiB incompressible object with no hook involved, and the crash matrix, round trips and "
+           "races are repeated for a key directly under the store root.",
+    "C20": " Benjamini-Hochberg families that sit exactly on the threshold (n equal p-values q/2^j in a family of n*2^j, non-dyadic q: exact in f64), completely "
+           "separated samples whose exact tail lies below the reportable floor, and medians of exactly scaled samples next to f64::MAX / among the subnormals.",
+}
